@@ -87,6 +87,20 @@ def step (c : Coll) (line : String) : Coll × String :=
       match lim.toNat?, natList? cands, parseF rest with
       | some l, some cs, some (f, []) => (c, showRes (guarded f (searchFilter c f cs l)))
       | _, _, _ => (c, "bad-op")
+  | "S" :: lim :: cands :: rest =>
+      -- the whole of `search_ids`: lim = none | n; cands = none (no search part) | - (no candidate) | a,b,c;
+      -- rest = nofilter | <filter>
+      let limit : Option (Option Nat) := if lim = "none" then some none else lim.toNat?.map some
+      let cs : Option (Option (List Nat)) :=
+        if cands = "none" then some none else if cands = "-" then some (some []) else (natList? cands).map some
+      let f : Option (Option Filter) :=
+        if rest = ["nofilter"] then some none
+        else match parseF rest with
+          | some (f, []) => some (some f)
+          | _ => none
+      match limit, cs, f with
+      | some l, some cs, some f => (c, showRes (apiSearchIds c f cs l))
+      | _, _, _ => (c, "bad-op")
   | "k" :: which :: lim :: ix :: rest =>
       match lim.toNat?, ix.toNat?, parseRQ rest with
       | some l, some ix, some (q, []) =>
@@ -97,6 +111,8 @@ def step (c : Coll) (line : String) : Coll × String :=
               (c, "ok " ++ showNats (truncate desc (isort (fieldScanKeyOrderStop m q none l desc)) l))
       | _, _, _ => (c, "bad-op")
   | ["consts"] => (c, s!"MAX_SEARCH_LIMIT={maxSearchLimit}")
+  | ["searchconsts"] =>
+      (c, s!"factor={Gen.FilterConsts.searchFactor} cap={Gen.FilterConsts.searchCap} default={Gen.FilterConsts.searchDefaultLimit}")
   | "budget" :: rest =>
       match parseF rest with
       | some (f, []) => (c, if withinBudget f then "ok" else "err:complexity")
